@@ -111,6 +111,19 @@ func allOfMembers(cfg gen.Config) []member {
 		out = append(out, member{name: "allOf: referenced required-only branch", cfg: cfg, mayFail: true, root: obj(&fam.Prop{Label: "c", Required: true, Spec: &fam.Spec{Kind: "object", AllOf: []*fam.Spec{
 			obj(&fam.Prop{Label: "note", Spec: str()}, &fam.Prop{Label: "id", Spec: &fam.Spec{Kind: "integer"}, Required: true}), mixin}}})})
 	}
+	// branches that are NULLABLE objects (type: ["object","null"]): still object branches — the composition is a struct with the
+	// union of their properties, not the empty schema
+	{
+		nb := obj(&fam.Prop{Label: "nm", Spec: str("minLength"), Required: true})
+		nb.Null = "after"
+		nb.Ref = "$defs"
+		wrap("nullable-object referenced branch + object branch", &fam.Spec{Kind: "object", AllOf: []*fam.Spec{nb, obj(&fam.Prop{Label: "x", Spec: &fam.Spec{Kind: "integer", Kw: []string{"maximum"}}, Required: true})}})
+		n1 := obj(&fam.Prop{Label: "a", Spec: str(), Required: true})
+		n1.Null = "after"
+		n2 := obj(&fam.Prop{Label: "b", Spec: &fam.Spec{Kind: "integer"}, Required: true})
+		n2.Null = "after"
+		wrap("two inline nullable-object branches", &fam.Spec{Kind: "object", AllOf: []*fam.Spec{n1, n2}})
+	}
 	// three and four branches
 	for n := 3; n <= 4; n++ {
 		var bs []*fam.Spec
